@@ -44,6 +44,23 @@
 (* not called .dynstr and a decoy section called .dynstr exists) and         *)
 (* Stripped (e_shoff = e_shnum = e_shstrndx = 0, program headers only).      *)
 (*                                                                         *)
+(* Mode "shdr": the relation between the SHT_DYNAMIC section header and the  *)
+(* PT_DYNAMIC segment, all of it (ShdrVariants): coinciding (match,          *)
+(* matchdecoy), disjoint (split), "stale" - the section lies inside the       *)
+(* segment, starts one entry after it and its sh_link names ANOTHER string    *)
+(* table than DT_STRTAB addresses (the header describes the array as it was   *)
+(* before an entry was put in front) -, "wide" - the segment lies inside the  *)
+(* section and starts one entry after it, sh_link likewise -, "nodyn" -       *)
+(* section headers without any SHT_DYNAMIC section -, and (every object's     *)
+(* Stripped image) no section headers at all.  gABI: the strings of the array *)
+(* PT_DYNAMIC locates are found through DT_STRTAB; sh_link speaks for "the    *)
+(* entries in the section".  Where section and segment do not coincide the    *)
+(* segment view must not depend on the header: SegmentByPointer checks that   *)
+(* the segment reader goes through DT_STRTAB and the PT_LOAD mapping, reads    *)
+(* the abstract strings and symbol names in every variant, and that the stale *)
+(* / wide header really names a table through which they would read           *)
+(* differently; ShdrRelation checks the picture of each variant.              *)
+(*                                                                         *)
 (* Mode "adj": PT_LOAD layouts x pointer positions at segment boundaries.    *)
 (* Three PT_LOADs A, B, C: A maps the file from 0 up to table cut-1, B maps  *)
 (* the file from table `cut` on DIRECTLY BEHIND A IN MEMORY (B.p_vaddr =     *)
@@ -79,13 +96,19 @@
 (* stops in the state DynScan!Scan - the closed form used for trace           *)
 (* validation - gives), SameData (the two encodings differ in the ELF header  *)
 (* and the section header table only), ChunksOK, PlacementOK (the writer's    *)
-(* offsets are the ones Elf.tla's layout gives the sections), RelocsAgree      *)
+(* offsets are the ones Elf.tla's layout gives the sections), SegmentByPointer, *)
+(* ShdrRelation (mode shdr, see above), RelocsAgree                            *)
 (* (every view reads back the abstract relocation tables; the DT_JMPREL table *)
 (* in DT_PLTREL's flavour), AdjBoundary (mode adj really puts a dynamic       *)
 (* pointer on the first byte of a PT_LOAD that starts at the end address of   *)
 (* another one while lying elsewhere in the file).                            *)
 (*                                                                         *)
 (* Not asserted (deliberately outside the property or not fixed by it):      *)
+(*  - the section view of a stale / wide SHT_DYNAMIC header (out of date by   *)
+(*    construction; view.secview = FALSE: the segment views only), and which  *)
+(*    table a segment reader uses when a section that COINCIDES with the       *)
+(*    segment links to another table than DT_STRTAB addresses ("the section   *)
+(*    link or the string-table pointer" - either; such images are not built); *)
 (*  - the symbol count when no hash table determines it (no hash tags, or a  *)
 (*    GNU table without populated bucket and no DT_HASH): the format offers  *)
 (*    only heuristics there; view.count.det = FALSE;                         *)
@@ -254,8 +277,27 @@ CfOf(cl) == Cf(cl[1], cl[2], IF cl[1] = 64 THEN 62 ELSE 3, 0)
 Layouts == {"one", "two", "bss", "twobss", "high"}
 AdjLayouts == {"adj", "adjrev"}                          \* mode "adj" only
 Variants == {"match", "matchdecoy", "split"}
+\* The relation between the SHT_DYNAMIC section header and the PT_DYNAMIC segment (mode "shdr" enumerates all of them).  S = the file
+\* extent [sh_offset, +sh_size) of the SHT_DYNAMIC section, P = [p_offset, +p_filesz) of PT_DYNAMIC (ShdrRelation checks the picture):
+\*   match / matchdecoy  S = P, sh_link names the table DT_STRTAB addresses;
+\*   split               S and P disjoint (P is a second copy of the array), sh_link as before;
+\*   stale               S lies inside P and starts one entry after it (the section header describes the array as it was before an
+\*                       entry was put in front of it), sh_link names ANOTHER string table (the decoy);
+\*   wide                P lies inside S and starts one entry after it (the section still counts an entry that was dropped from
+\*                       the front: sh_size reaches over the following section), sh_link names the decoy;
+\*   nodyn               section headers exist, but none of type SHT_DYNAMIC (the array lies in a SHT_PROGBITS section);
+\*   (absent altogether: the Stripped image of every object).
+\* By the gABI the strings of the array PT_DYNAMIC locates are found through DT_STRTAB; a section header's sh_link speaks for
+\* "the entries in the section" only.  Where S # P the header does not describe the segment's array, and the segment view must not
+\* depend on it (SegmentByPointer).  The section view of a stale / wide header is not asserted (out of date by construction).
+ShdrVariants == {"match", "matchdecoy", "split", "stale", "wide", "nodyn"}
 IsSplit(x) == x.variant = "split"
-HasDecoy(x) == x.variant \in {"split", "matchdecoy"}
+IsStale(x) == x.variant = "stale"
+IsWide(x) == x.variant = "wide"
+NoDynSec(x) == x.variant = "nodyn"
+HasCopy(x) == x.variant \in {"split", "wide"}                  \* PT_DYNAMIC covers a section of its own behind .dynamic
+HasDecoy(x) == x.variant \in {"split", "matchdecoy", "stale", "wide", "nodyn"}
+SecViewDefined(x) == x.variant \in {"match", "matchdecoy", "split"}     \* a SHT_DYNAMIC section that describes the array
 MPos == {"front", "back", "mid"}
 HKinds == {"none", "sysv", "gnu", "both"}
 \* rels: which relocation tables the array names; plt: DT_JMPREL absent, or present with DT_PLTREL = DT_REL / DT_RELA
@@ -317,6 +359,10 @@ Init ==
                                plt \in {"none", "rel", "rela"} :
                                o = [Obj(mode, CfOf(cl), "two", v, "front", <<1>>, <<Alpha[1]>>, 1, TwoSyms(cl[1]), "sysv", 1, 1, FALSE)
                                     EXCEPT !.rels = Rels(rel, rela, relr, plt)]
+         \* the section header / segment relation x class / order x one or two PT_LOADs x position of the mandatory block (which
+         \* entry is the first one: DT_HASH or a DT_NEEDED); DT_NEEDED, DT_SONAME (shared tail), DT_RPATH (UTF-8), DT_RUNPATH ""
+         [] mode = "shdr" -> \E cl \in ClsLe, v \in ShdrVariants, l \in {"one", "two"}, mp \in {"front", "back"} :
+                               o = Obj(mode, CfOf(cl), l, v, mp, <<1, 3, 4, 5>>, <<Alpha[1], Alpha[3], Alpha[4], Alpha[5]>>, 2, TwoSyms(cl[1]), "both", 2, 1, FALSE)
          [] mode = "sweep" -> \E s \in SweepIds : \E g \in 1..NGroups(s) :
                                o = Obj(mode, SweepSpecs[s].cf, "one", CASE g % 3 = 0 -> "split" [] g % 3 = 1 -> "match" [] OTHER -> "matchdecoy", "front", <<s, g>>, SweepTags(s, g), 1,
                                        <<LSym(6, 1, SweepSpecs[s].cf.cls)>>, "sysv", 1, 1, FALSE)
@@ -343,10 +389,10 @@ RelKinds(x) == (IF x.rels.rel THEN <<"rel">> ELSE <<>>) \o (IF x.rels.rela THEN 
                \o (IF x.rels.relr THEN <<"relr">> ELSE <<>>) \o (IF x.rels.plt # "none" THEN <<"plt">> ELSE <<>>)
 Order(x) == (IF SymLast(x) THEN <<"str">> ELSE <<"sym", "str">>)
             \o (IF HasV(x) THEN <<"hash">> ELSE <<>>) \o (IF HasG(x) THEN <<"gnu">> ELSE <<>>)
-            \o (IF SymLast(x) THEN <<"sym">> ELSE <<>>) \o RelKinds(x) \o <<"dyn">>
-            \o (IF IsSplit(x) THEN <<"copy">> ELSE <<>>) \o (IF HasDecoy(x) THEN <<"decoy">> ELSE <<>>)
+            \o (IF SymLast(x) THEN <<"sym">> ELSE <<>>) \o RelKinds(x) \o (IF IsStale(x) THEN <<"head">> ELSE <<>>) \o <<"dyn">>
+            \o (IF HasCopy(x) THEN <<"copy">> ELSE <<>>) \o (IF HasDecoy(x) THEN <<"decoy">> ELSE <<>>)
 PosOf(ord, kind) == LET hits == {k \in 1..Len(ord) : ord[k] = kind} IN IF hits = {} THEN -1 ELSE Min(hits)
-Ix(x) == LET ord == Order(x) IN [kind \in {"sym", "str", "hash", "gnu", "dyn", "copy", "decoy", "rel", "rela", "relr", "plt"} |-> PosOf(ord, kind)]
+Ix(x) == LET ord == Order(x) IN [kind \in {"sym", "str", "hash", "gnu", "head", "dyn", "copy", "decoy", "rel", "rela", "relr", "plt"} |-> PosOf(ord, kind)]
 \* abstract relocation entries (r_offset: a field value; symbol index, type code; r_addend: a field value, signed)
 RelE(off, sym, type, add) == [off |-> off, sym |-> sym, type |-> type, add |-> add]
 RelPool(c) == << RelE(N(8200), 1, 7, N(0)), RelE(BigV(c), 2, 7, N(0 - 8)), RelE(N(12304), 0, 8, N(4660)), RelE(N(8208), 3, 7, N(0)) >>
@@ -449,6 +495,16 @@ EncTags(x, P, ts) == CatAll([i \in 1..Len(ts) |-> Fix(W(TagDigits(x, ts[i])), Ws
 \* definition at every use inside a function constructor.)
 SecCount(x) == Len(Order(x))
 NLoad(x) == IF x.layout \in AdjLayouts THEN 3 ELSE IF x.layout \in {"two", "twobss"} THEN 2 ELSE 1
+\* What the sections "head" / "dyn" hold of the encoded array `dyn` (dl = its length) under the variants where the SHT_DYNAMIC
+\* section is not the array: stale - "head" (SHT_PROGBITS) holds the first entry, the SHT_DYNAMIC section the rest (PT_DYNAMIC
+\* covers both); wide - the SHT_DYNAMIC section holds one entry of its own (DT_DEBUG 0, dropped from the array) and its sh_size
+\* reaches over the following section, which holds the array (PT_DYNAMIC covers that one).
+Part(d, a, b) == IF Len(d) < b THEN <<>> ELSE SubSeq(d, a, b)
+DynSecLen(x, dl) == IF IsStale(x) THEN dl - DynEnt(x.cls) ELSE IF IsWide(x) THEN DynEnt(x.cls) ELSE dl
+PreEntry(x) == EncTags(x, <<>>, <<Alpha[15]>>)
+DynSecData(x, dyn) == IF IsStale(x) THEN Part(dyn, DynEnt(x.cls) + 1, Len(dyn)) ELSE IF IsWide(x) THEN PreEntry(x) ELSE dyn
+HeadData(x, dyn) == Part(dyn, 1, DynEnt(x.cls))
+DynSecSize(x, dl) == IF IsStale(x) THEN dl - DynEnt(x.cls) ELSE IF IsWide(x) THEN DynEnt(x.cls) + dl ELSE dl      \* sh_size
 Build(so) ==
   /\ phase = "build"
   /\ so >= 1 /\ so <= Len(o.syms) + 1
@@ -470,8 +526,8 @@ PlaceTables ==
   /\ LET x == o   ix == Ix(o)   w == Ws(o)
          ord == Order(o)
          lens == [k \in 1..Len(ord) |-> CASE ord[k] = "sym" -> Len(mem.symb) [] ord[k] = "str" -> Len(DynStr) [] ord[k] = "hash" -> Len(mem.hb)
-                                           [] ord[k] = "gnu" -> Len(mem.gb) [] ord[k] \in {"dyn", "copy"} -> mem.dynlen [] ord[k] = "decoy" -> Len(Decoy)
-                                           [] OTHER -> Len(mem.rb[ord[k]])]
+                                           [] ord[k] = "gnu" -> Len(mem.gb) [] ord[k] = "dyn" -> DynSecLen(x, mem.dynlen) [] ord[k] = "copy" -> mem.dynlen [] ord[k] = "head" -> DynEnt(x.cls)
+                                           [] ord[k] = "decoy" -> Len(Decoy) [] OTHER -> Len(mem.rb[ord[k]])]
          \* where the data region starts (Elf.tla: after the ELF header and the program header table) and ends (after .shstrtab)
          hdr == [Im0 EXCEPT !.cls = x.cls, !.segs = [j \in 1..(NLoad(x) + 1) |-> Z]]
          d0 == DataOff(hdr)
@@ -488,7 +544,10 @@ SecOf(x, m, ad, dyn, kind) ==
     [] kind = "str" -> Sec(IF HasDecoy(x) THEN DotDstr ELSE DotDynstr, Sht("SHT_STRTAB"), N(2), ad[ix.str], DynStr, N(Len(DynStr)), Z, Z, N(1), Z)
     [] kind = "hash" -> Sec(DotHash, Sht("SHT_HASH"), N(2), ad[ix.hash], m.hb, N(Len(m.hb)), N(ix.sym), Z, N(4), N(4))
     [] kind = "gnu" -> Sec(DotGnuHash, Sht("SHT_GNU_HASH"), N(2), ad[ix.gnu], m.gb, N(Len(m.gb)), N(ix.sym), Z, N(w), Z)
-    [] kind = "dyn" -> Sec(DotDynamic, Sht("SHT_DYNAMIC"), N(3), ad[ix.dyn], dyn, N(m.dynlen), N(ix.str), Z, N(w), N(DynEnt(c)))
+    [] kind = "dyn" -> IF NoDynSec(x) THEN Sec(DotData, Sht("SHT_PROGBITS"), N(3), ad[ix.dyn], dyn, N(m.dynlen), Z, Z, N(w), Z)
+                       ELSE Sec(DotDynamic, Sht("SHT_DYNAMIC"), N(3), ad[ix.dyn], DynSecData(x, dyn), N(DynSecSize(x, m.dynlen)),
+                                N(IF IsStale(x) \/ IsWide(x) THEN ix.decoy ELSE ix.str), Z, N(w), N(DynEnt(c)))
+    [] kind = "head" -> Sec(DotData, Sht("SHT_PROGBITS"), N(3), ad[ix.head], HeadData(x, dyn), N(DynEnt(c)), Z, Z, N(w), Z)
     [] kind = "copy" -> Sec(DotData, Sht("SHT_PROGBITS"), N(3), ad[ix.copy], dyn, N(m.dynlen), Z, Z, N(w), Z)
     [] kind = "decoy" -> Sec(DotDynstr, Sht("SHT_STRTAB"), N(2), ad[ix.decoy], Decoy, N(Len(Decoy)), Z, Z, N(1), Z)
     [] kind = "relr" -> Sec(DotRelrDyn, Sht("SHT_RELR"), N(2), ad[ix.relr], m.rb.relr, N(Len(m.rb.relr)), Z, Z, N(w), N(w))
@@ -519,7 +578,7 @@ Addresses ==
                relr |-> IF x.rels.relr THEN ad[ix.relr] ELSE DZero(w), plt |-> IF x.rels.plt # "none" THEN ad[ix.plt] ELSE DZero(w),
                \* an address without file image: in the zero-fill tail of the first segment; beyond every segment under adj / adjrev
                bss |-> IF x.layout \in AdjLayouts THEN Plus(Base(x), 8388608) ELSE Plus(loads[1].va, loads[1].fsz + 16)]
-         pd == IF IsSplit(x) THEN ix.copy ELSE ix.dyn IN
+         pd == IF HasCopy(x) THEN ix.copy ELSE IF IsStale(x) THEN ix.head ELSE ix.dyn IN
      mem' = [f \in DOMAIN mem \cup {"ad", "P", "pdyn"} |->
                CASE f = "ad" -> ad [] f = "P" -> P
                  [] f = "pdyn" -> [off |-> mem.offs[pd], size |-> mem.dynlen, index |-> Len(loads), sec |-> pd]
@@ -544,7 +603,8 @@ Encode ==
                            !.secs = Sections(o, mem, wads, dyn), !.segs = segs]
          ord == Order(o)
          data == Flat([k \in 1..Len(ord) |-> CASE ord[k] = "sym" -> mem.symb [] ord[k] = "str" -> DynStr [] ord[k] = "hash" -> mem.hb
-                                                [] ord[k] = "gnu" -> mem.gb [] ord[k] \in {"dyn", "copy"} -> dyn [] ord[k] = "decoy" -> Decoy
+                                                [] ord[k] = "gnu" -> mem.gb [] ord[k] = "dyn" -> DynSecData(x, dyn) [] ord[k] = "copy" -> dyn
+                                                [] ord[k] = "head" -> HeadData(x, dyn) [] ord[k] = "decoy" -> Decoy
                                                 [] OTHER -> mem.rb[ord[k]]]) IN
      mem' = [f \in DOMAIN mem \cup {"im", "data"} |-> CASE f = "im" -> im [] f = "data" -> data [] OTHER -> mem[f]]
   /\ phase' = "done"
@@ -560,7 +620,8 @@ At(pc) == phase = "done" /\ rd.pc = pc
 TabBase(v) == IF v = "sec" THEN mem.offs[Ix(o).dyn] ELSE mem.pdyn.off
 TabSize(v) == IF v = "sec" THEN mem.lens[Ix(o).dyn] ELSE mem.pdyn.size
 
-StartRead(v) == At("idle") /\ rd' = [Idle EXCEPT !.view = v, !.pc = "scan"] /\ Keep
+\* (the section view is read where a SHT_DYNAMIC section describes the array - variants match, matchdecoy, split)
+StartRead(v) == At("idle") /\ (v = "sec" => SecViewDefined(o)) /\ rd' = [Idle EXCEPT !.view = v, !.pc = "scan"] /\ Keep
 ScanTag ==
   /\ At("scan")
   /\ LET st == ScanStep(mem.data, Rel(TabBase(rd.view)), TabSize(rd.view), o.cls, o.le, rd.sc) IN
@@ -667,6 +728,8 @@ DynView == [tags |-> [i \in 1..Len(ViewTags(o)) |-> TagView(o, ViewTags(o)[i])],
          byname |-> [k \in AllIds |-> {i \in 0..(mem.n - 1) : mem.tab[i + 1].nm = k}],
          count |-> [det |-> CountDet(o), n |-> mem.n],
          rels |-> RelView,
+         \* a SHT_DYNAMIC section describes the array (FALSE: stale / wide / no such section - the segment views only)
+         secview |-> SecViewDefined(o),
          \* no DT_RELA / DT_REL / DT_JMPREL / DT_RELR in the array: a reader finds no relocation table
          relfree |-> \A i \in 1..Len(ViewTags(o)) : ViewTags(o)[i].c \notin {C1(7), C1(17), C1(23), C1(36)},
          \* ld-style empty GNU table: the class of objects on which a reader trusting symoffset alone goes wrong
@@ -743,7 +806,36 @@ AdjBoundary ==
 CountExact == /\ (Finished("sec") => rd.cnt = [det |-> TRUE, n |-> mem.n])
               /\ (Finished("seg") => rd.cnt.det = CountDet(o) /\ (rd.cnt.det => rd.cnt.n = mem.n) /\ rd.cnt.n <= mem.n)
 \* the string table the section link designates is the one DT_STRTAB addresses
-StrtabAgree == Done /\ rd.view = "idle" => OffOfTag(ExpTags, DtStrtab) = mem.offs[Ix(o).str] /\ mem.im.secs[Ix(o).dyn].link.n = Ix(o).str
+StrtabAgree == Done /\ rd.view = "idle" => /\ OffOfTag(ExpTags, DtStrtab) = mem.offs[Ix(o).str]
+                                            /\ (SecViewDefined(o) => mem.im.secs[Ix(o).dyn].link.n = Ix(o).str)
+\* The segment view takes its strings through DT_STRTAB and the PT_LOAD mapping whatever the section headers say: it reads the
+\* table DT_STRTAB addresses and delivers the abstract strings in EVERY section header / segment relation; and where the header
+\* is stale or wide it really names another table through which at least one string tag of the array (and a symbol name) would
+\* read differently - so an image of these variants tells a reader that follows the header from one that follows the pointer.
+ViaLink(out) == StringsOf(mem.offs[mem.im.secs[Ix(o).dyn].link.n], out)
+SegmentByPointer ==
+  Finished("seg") =>
+    /\ rd.stroff = PtrToOffset(mem.loads, ValOf(rd.sc.out, DtStrtab)) /\ rd.stroff = mem.offs[Ix(o).str]
+    /\ rd.strs = ExpStrs /\ rd.syms = ExpSyms
+    /\ (IsStale(o) \/ IsWide(o) =>
+          /\ mem.im.secs[Ix(o).dyn].link.n = Ix(o).decoy /\ mem.offs[Ix(o).decoy] # rd.stroff
+          /\ ((\E i \in 1..Len(ExpStrs) : ExpStrs[i] # <<-1>>) => ViaLink(rd.sc.out) # ExpStrs))
+\* the picture of the variants: S = [sh_offset, +sh_size) of the SHT_DYNAMIC section, P = [p_offset, +p_filesz) of PT_DYNAMIC
+IsShtDynamic(sec) == sec.type = Sht("SHT_DYNAMIC")
+ShdrRelation ==
+  Done /\ rd.view = "idle" =>
+    LET secs == mem.im.secs
+        dynsecs == {k \in 1..Len(secs) : IsShtDynamic(secs[k])}
+        e == DynEnt(o.cls)
+        s0 == mem.offs[Ix(o).dyn]   s1 == s0 + secs[Ix(o).dyn].size.n
+        p0 == mem.pdyn.off          p1 == p0 + mem.pdyn.size IN
+    /\ dynsecs = IF NoDynSec(o) THEN {} ELSE {Ix(o).dyn}
+    /\ CASE o.variant \in {"match", "matchdecoy", "nodyn"} -> s0 = p0 /\ s1 = p1
+         [] o.variant = "split" -> s1 <= p0 /\ s1 - s0 = p1 - p0
+         [] o.variant = "stale" -> s0 = p0 + e /\ s1 = p1 /\ s0 < s1
+         [] o.variant = "wide" -> p0 = s0 + e /\ s1 = p1
+    \* the array PT_DYNAMIC covers is the whole encoded array in every variant
+    /\ SubSeq(mem.data, Rel(p0) + 1, Rel(p1)) = mem.dyn
 \* a translated pointer lies inside the file-backed part of exactly the PT_LOAD that maps it, at the same distance from its start
 PtrInsideSegment ==
   Done /\ rd.view = "idle" => LET ts == ViewTags(o) IN
@@ -767,7 +859,7 @@ SameData ==
     LET a == Split(ImWith)   b == Split(ImStripped) IN
     /\ a.common = b.common /\ b.sh = <<>> /\ a.sh # <<>>
     /\ EhdrRec(ImStripped).e_shoff = Z /\ EhdrRec(ImStripped).e_shnum = Z /\ EhdrRec(ImStripped).e_shstrndx = Z
-    /\ (~IsSplit(o) <=> mem.pdyn.off = mem.offs[Ix(o).dyn])
+    /\ (o.variant \in {"match", "matchdecoy", "nodyn"} <=> mem.pdyn.off = mem.offs[Ix(o).dyn])
     /\ (IsSplit(o) => mem.im.secs[Ix(o).copy].data = mem.im.secs[Ix(o).dyn].data)
 ChunksOK == Done /\ rd.view = "idle" => ChunksDisjoint(ImWith) /\ ChunksDisjoint(ImStripped)
 \* the offsets the writer placed the tables at are the offsets Elf.tla's layout gives the sections; the data region the reader
